@@ -156,6 +156,25 @@ func (bf *byteFlow) out(b *ssa.BasicBlock) bset {
 	return bf.in[b]
 }
 
+// onEdge: the byte values with which control can pass from pred to succ.
+func (bf *byteFlow) onEdge(pred, succ *ssa.BasicBlock) bset {
+	if !bf.known[pred] {
+		return bset{}
+	}
+	cur := bf.out(pred)
+	if len(pred.Succs) == 2 && pred.Succs[0] != pred.Succs[1] {
+		if ifi, ok := pred.Instrs[len(pred.Instrs)-1].(*ssa.If); ok {
+			if ts, ok := bf.condSet(ifi.Cond, 0); ok {
+				if pred.Succs[0] == succ {
+					return cur.and(ts)
+				}
+				return cur.and(ts.not())
+			}
+		}
+	}
+	return cur
+}
+
 // At: the byte values with which ins can execute (empty: not reached by the flow).
 func (bf *byteFlow) At(ins ssa.Instruction) bset {
 	if ins == nil || ins.Block() == nil {
